@@ -56,6 +56,9 @@ def cases(tier, seed):
         for rs in itertools.combinations(range(len(RULES)), size):
             for nested in (False, True):
                 yield {"k": "git", "rules": list(rs), "nested": nested}
+            if size <= 2:
+                yield {"k": "git", "rules": list(rs), "nested": False, "where": "global-excludes"}
+                yield {"k": "git", "rules": list(rs), "nested": False, "where": "info-exclude"}
     for sub in (False, True):
         for meson in (False, True):
             for cwd in ("root", "subdir", "outside"):
@@ -155,6 +158,20 @@ def consumers(root, extra=(), cwd=None, do_annotate=True):
             p = m.group(1)
             seen.add(p[len(pre):] if p.startswith(pre) else p)
     out["lint-file"] = seen
+    # the same files spelled with a '..' component, relative to the root
+    some_dir = next((p for p, k in sorted(kinds.items()) if k == "dir" and "/" not in p and not p.startswith(".")), None)
+    if some_dir and cwd is None:
+        rel_args = [os.path.join(some_dir, "..", os.path.relpath(a, root)) for a in args]
+        lf2 = run_cli([*extra, "--root", str(root), "--no-multiprocessing", "lint-file", *rel_args], cwd=str(root))
+        if lf2.exc or lf2.exit_code not in (0, 1):
+            raise HarnessError(f"lint-file (dotdot spelling) failed: {lf2.brief()}")
+        seen2 = set()
+        for line in lf2.stdout.split("\n"):
+            m = re.match(r"^(.*): (no license identifier|no copyright notice|read error|missing license \S+)$", line)
+            if m:
+                q = os.path.normpath(os.path.join(str(root), m.group(1))) if not os.path.isabs(m.group(1)) else m.group(1)
+                seen2.add(q[len(pre):] if q.startswith(pre) else q)
+        out["lint-file-dotdot"] = seen2
     if do_annotate:
         before = read_tree(root)
         an = run_cli(base + ["annotate", "--copyright", "Jane", "--year", "2020", "--recursive", "--fallback-dot-license", str(root)], cwd=cwd)
@@ -277,15 +294,43 @@ def ev_git(c) -> R:
     rules = [RULES[i] for i in c["rules"]]
     if c["nested"]:
         (root / "d" / ".gitignore").write_text("*.tmp\n!x.tmp\nz.py\n")
-    (root / ".gitignore").write_text("".join(x + "\n" for x in rules))
-    kinds = tree_kinds(root)
-    files = [p for p, k in kinds.items() if k == "file" and not p.startswith(".git/")]
-    ign = git_ignored(root, files)
-    cov, unspec, _ = reference_sets(root, ignored=ign)
-    r.validated = 0
-    got = consumers(root)
-    label = f"git repo with .gitignore {rules}{' + d/.gitignore' if c['nested'] else ''}"
+    where = c.get("where", "gitignore")
+    saved = {k: os.environ.get(k) for k in ("GIT_CONFIG_GLOBAL", "VERIF_GIT_GLOBAL_OVERRIDE")}
+    if where == "gitignore":
+        (root / ".gitignore").write_text("".join(x + "\n" for x in rules))
+    elif where == "info-exclude":
+        (root / ".git" / "info").mkdir(exist_ok=True)
+        (root / ".git" / "info" / "exclude").write_text("".join(x + "\n" for x in rules))
+    else:
+        # the user's global excludes file (core.excludesFile), reached through the environment the tool hands to git
+        gdir = root.parent / (root.name + "-home")
+        gdir.mkdir(exist_ok=True)
+        (gdir / "ignore").write_text("".join(x + "\n" for x in rules))
+        (gdir / "gitconfig").write_text(f"[core]\n\texcludesFile = {gdir / 'ignore'}\n")
+        os.environ["GIT_CONFIG_GLOBAL"] = str(gdir / "gitconfig")
+        os.environ["VERIF_GIT_GLOBAL_OVERRIDE"] = "1"
+    try:
+        kinds = tree_kinds(root)
+        files = [p for p, k in kinds.items() if k == "file" and not p.startswith(".git/")]
+        ign = git_ignored(root, files)
+        cov, unspec, _ = reference_sets(root, ignored=ign)
+        r.validated = 0
+        got = consumers(root, do_annotate=(where == "gitignore"))
+    finally:
+        for k, v in saved.items():
+            if v is None:
+                os.environ.pop(k, None)
+            else:
+                os.environ[k] = v
+    label = f"git repo with {where} rules {rules}{' + d/.gitignore' if c['nested'] else ''}"
     compare(r, label, "git", cov, unspec, got)
+    if where != "gitignore":
+        r.evals = 4
+        r.outcome = f"ignored={min(len(ign), 4)}"
+        r.nontrivial = bool(ign)
+        r.tags.append("git")
+        r.tags.append(where)
+        return r
     root = fresh_dir("c03")
     materialise(root, rec)
     gitrepo.git(root, "init", "-q")
